@@ -1027,10 +1027,10 @@ impl VisitMut for Norm {
                     m.arms = new_arms;
                     self.log("N5-split-or-pattern", sp);
                 }
-                // N6: `P if g => B, _ => W` (guard arm directly before the final wildcard arm, scrutinee `&mut e`)
+                // N6: `P if g => B, _ => W` (guard arm directly before the final wildcard arm)
                 //     => `P => if g { B } else { W }, _ => W`
                 let n = m.arms.len();
-                if n >= 2 && matches!(&*m.expr, Expr::Reference(r) if r.mutability.is_some()) {
+                if n >= 2 {
                     let last_is_wild = matches!(&m.arms[n - 1].pat, Pat::Wild(_)) && m.arms[n - 1].guard.is_none();
                     if last_is_wild && m.arms[n - 2].guard.is_some() {
                         let w = m.arms[n - 1].body.clone();
